@@ -5,14 +5,14 @@ EXTENDS O2OEnum, Json, IOUtils
 Rec == ndJsonDeserialize(IOEnv.TRACE)
 VARIABLE l
 Obs(r) == [variant |-> r.variant, leaves |-> {r.leaves[i] : i \in DOMAIN r.leaves}]
-Exp(r) == IF IsFrom(r.k) THEN FromExp(r.in, r.vin) ELSE IntoExp(r.in, r.vin)
+Exp(r) == IF r.vin > 100 THEN FromGhostExp(r.vin - 100) ELSE IF IsFrom(r.k) THEN FromExp(r.in, r.vin) ELSE IntoExp(r.in, r.vin)
 C02Symptom(r) == IF r.res # "ok" THEN "unexpected_error"
                  ELSE IF Obs(r) = Exp(r) THEN "-"
                  ELSE IF Obs(r).variant # Exp(r).variant THEN "wrong_variant" ELSE "wrong_payload"
 Symptom(r) == IF r.prop = "CF" THEN "does_not_compile" ELSE C02Symptom(r)
 AnyTupleIdx(in) == \E i \in DOMAIN in.vs : Cell(in, i, "any").idx_member_no_action
 Report(r) == IF r.prop = "CF" THEN [case |-> r.case, symptom |-> Symptom(r), cell |-> [idx_member_no_action |-> AnyTupleIdx(r.in), kind |-> "any"], errors |-> r.errors]
-             ELSE [case |-> r.case, symptom |-> Symptom(r), cell |-> Cell(r.in, r.vin, r.k), expected |-> Exp(r), observed |-> Obs(r)]
+             ELSE [case |-> r.case, symptom |-> Symptom(r), cell |-> (IF r.vin > 100 THEN [kind |-> r.k, enum_level_ghost |-> TRUE] ELSE Cell(r.in, r.vin, r.k)), expected |-> Exp(r), observed |-> Obs(r)]
 Init == l = 1
 Consume == /\ l <= Len(Rec)
            /\ (IF Symptom(Rec[l]) = "-" THEN TRUE ELSE PrintT(<<"MISMATCH", ToJson(Report(Rec[l]))>>))
